@@ -102,8 +102,7 @@ class AstGen:
             elif k == 7:
                 cnt = r.choice([0, 1, 2, 3, 5])
                 bm, bn = ("", "B 0") if r.chance(1, 8) else self.body(depth - 1, nprocs, nlocals, 2)
-                if cnt == 0:
-                    continue  # repeat.0 is rejected by the parser
+                # repeat.0 is accepted by the parser and contributes no copy of its body
                 m, n = "repeat.%d %s end" % (cnt, bm), "R %d %s" % (cnt, bn)
             elif k == 8:
                 # while loop driven by precomputed conditions: push last, then `it` ones
